@@ -5,6 +5,7 @@
 package c07
 
 import (
+	"context"
 	"encoding/json"
 	"fmt"
 	"os"
@@ -295,6 +296,32 @@ func TestCases(t *testing.T) {
 				a.ReceiveMap(cc.build(c.Maps[i]))
 			}
 			a.Process(func(mm *gostatsd.MetricMap) { report("Aggregator", how, mm) })
+		}
+		// 5. the tag stage's own collision merge: all maps of the family in ONE batch, kept apart by a tag i:<k> that a
+		//    drop-tags filter removes (so the series coincide inside TagHandler.DispatchMetricMap); a static tag is added
+		{
+			big := gostatsd.NewMetricMap(false)
+			tagged := conc{cc.name, map[string]gostatsd.Tags{}, cc.source}
+			for i, es := range c.Maps {
+				for k, v := range cc.tags {
+					tagged.tags[k] = append(v.Copy(), fmt.Sprintf("i:%d", i))
+				}
+				big.Merge(tagged.build(es))
+			}
+			sink := &fakes.Handler{}
+			th := statsd.NewTagHandler(sink, gostatsd.Tags{"st:1"}, []statsd.Filter{{DropTags: gostatsd.StringMatchList{gostatsd.NewStringMatch("i:*")}}})
+			th.DispatchMetricMap(context.Background(), big)
+			maps, _ := sink.Take()
+			after := conc{cc.name, map[string]gostatsd.Tags{}, cc.source}
+			for k, v := range cc.tags {
+				after.tags[k] = append(v.Copy(), "st:1")
+			}
+			res.Eval(n >= 2)
+			if len(maps) != 1 {
+				res.Fail("C07", "TagStage:no-output", "tag stage dispatched nothing", rec("tagstage"))
+			} else if sig, d := after.check(maps[0], c.Canon); sig != "" {
+				res.Fail("C07", "TagStage:"+sig, "TagStage collapse: "+d, rec("tagstage"))
+			}
 		}
 		for _, cn := range c.Canon {
 			if cn.Ty == "gauge" && len(cn.Allowed) > 1 {
